@@ -64,3 +64,25 @@ func VerifH_C04_KeySwitchBitDecomp() {
 	}
 	vCover("C04-bitdecomp-reached")
 }
+
+// Lazy accumulation of the gadget product (parameter set 7: 61-bit Q primes, 59-bit P primes, up to 4 RNS digits):
+// the accumulators modulo Q and modulo P are reduced on their own cadences (overflow margins 8 and 32); every value
+// handed to a Montgomery product, to the inverse NTT or to ModDown must be inside the range that code tolerates
+// (tracked-range obligations of the algebraic model), and the key switch must still re-encrypt faithfully.
+func VerifH_C04_LazyAccumulation() {
+	vConfig("algebraic-samplers", "1")
+	c := VerifSetup_Ctx(7, vIsAlgebraic())
+	c.Kgen.GenSecretKey(c.Sk)
+	c.Kgen.GenSecretKey(c.Sk2)
+	maxQ := c.Params.MaxLevelQ()
+	levels := []int{maxQ, maxQ - 1, maxQ - 2}
+	if vTier() > 0 {
+		levels = []int{maxQ, maxQ - 1, maxQ - 2, maxQ - 3, maxQ - 4, 1, 0}
+	}
+	for _, level := range levels {
+		vKeySwitchCase(c, EvaluationKeyParameters{}, level, "set7-default-L"+vItoa(level))
+	}
+	g := c.Params.GaloisElement(1)
+	vAutCase(c, EvaluationKeyParameters{}, g, maxQ, "set7-gal0-maxkey-maxlevel")
+	vCover("C04-lazy-accumulation-reached")
+}
